@@ -162,7 +162,18 @@ def r4(cx):
                     cmp_.condition_to_reach(c.bb) is not None:
                 cx.bad("pointer-bookkeeping-by-kind", "the pointer bookkeeping of TableWriter::add depends on the entry kind", cmp_.where())
     mins = [c for c in b.calls + [x for cb in f.closures_of(b) for x in cb.calls] if c.primary.endswith("Ord::min") or c.primary.endswith("cmp::min")]
-    cx.check(bool(mins), "file ids are combined with min()", "pointer-min", b.where(), "TableWriter::add no longer keeps the minimum referenced file id")
+    # ... or with an explicit comparison: the value stored back is chosen by `new id < current minimum`
+    by_cmp = False
+    for bb_ in [b] + list(f.closures_of(b)):
+        for cm in comparisons(bb_):
+            if cm.kind == "ord" or cm.op not in ("Lt", "Le", "Gt", "Ge"):
+                continue
+            sides = [origin_of_operand(bb_, cm.lhs, through_calls="all"), origin_of_operand(bb_, cm.rhs, through_calls="all")]
+            has_new = any("file_id" in o_.field_names() and o_.from_call("vlog::ValuePointer::decode") for o_ in sides)
+            has_cur = any("min_vlog_file_id" in o_.field_names() for o_ in sides)
+            if has_new and has_cur:
+                by_cmp = True
+    cx.check(bool(mins) or by_cmp, "file ids are combined with min() / an explicit `<` against the current minimum", "pointer-min", b.where(), "TableWriter::add no longer keeps the minimum referenced file id")
     fb = f.body("TableWriter::finish")
     okf = False
     for i, j, lhs, rv, line in fb.assigns():
